@@ -158,6 +158,24 @@ def handleScan (ds : DState) (sc : ScanCase) : DState × Json :=
             (monitors ctx ob.j (fatalHere && sc.obs.outcome == "fatal:not-in-group") ++ monitorsWant ctx ob.delta ob.j fatalHere ++ m05).map (fun m => match m.splitOn "|" with
             | [p, d] => p ++ ":" ++ ob.name ++ ":" ++ d
             | _ => m ++ ":" ++ ob.name))
+    -- which oracles were applicable to this scan (probed with an observation they would have to reject):
+    -- written to the evidence so that a quiet monitor can be told from one that never applied
+    let armed : List String := sc.obs.recs.flatMap (fun ob =>
+      match ds.ctl.cfgs.find? (fun c => c.name == ob.name) with
+      | none => []
+      | some c =>
+        let stR : CState := { st with prov := match (refresh o 0 st.prov).val with | some p => p | none => st.prov }
+        match ctxOf c stR with
+        | none => []
+        | some ctx =>
+          let unt : Int := Spec.untaintedCount ctx
+          let want : Int := if unt < ctx.st.minEff then ctx.st.minEff - unt else ob.delta
+          (if (Spec.decisionBad ctx (-987654321)).isEmpty then [] else ["decision-by-exact-band" ++ (if ctx.dry then "(dry)" else "")]) ++
+          (if (Spec.C06.badStarve ctx 0 []).isEmpty then [] else ["starve-exception"]) ++
+          (if (Spec.C06.badMaxAge ctx 0 []).isEmpty then [] else ["max-node-age-exception"]) ++
+          (if (Spec.C05.badFromZero ctx (seen'.lookup ob.name) (-5)).isEmpty || seen'.lookup ob.name == some (-1, -1) then [] else ["scale-up-from-zero"]) ++
+          (if (Spec.C05.badScaleUp ctx (-5)).isEmpty then [] else ["scale-up-size"]) ++
+          (if (Spec.C07.shortfall ctx want []).isEmpty then [] else ["remainder-requested"]))
     -- C15 on the observed journals, paired with the recorded responses (ordered calls only)
     let isOrdered (e : Entry) : Bool := match e.call with | .describeInstances _ => false | _ => true
     let allObs : List (String × Entry) := sc.obs.pre.map (fun e => ("", e)) ++ sc.obs.recs.flatMap (fun r => r.j.map (fun e => (r.name, e)))
@@ -254,7 +272,7 @@ def handleScan (ds : DState) (sc : ScanCase) : DState × Json :=
     let diffs := dOutcome ++ dPre ++ dRecs ++ dStates
     let branches := out.recs.map (fun m => m.name ++ ":" ++ m.branch)
     let base : List (String × Json) :=
-      [("diffs", toJson diffs), ("mon", toJson mons), ("branches", toJson branches)]
+      [("diffs", toJson diffs), ("mon", toJson mons), ("branches", toJson branches), ("armed", toJson armed)]
     let detail : List (String × Json) :=
       if diffs.isEmpty && mons.isEmpty then [] else
         [("model", Json.mkObj [
